@@ -360,6 +360,8 @@ batch_case!(cfb_dec_b2_w2_k5, 48, cfb_mode::Decryptor, dec, U2, 2, U2, 2, U2, 5,
 batch_case!(cfb_dec_b2_w3_k5, 48, cfb_mode::Decryptor, dec, U2, 2, U2, 2, U3, 5, U2, 2);
 batch_case!(cfb8_enc_b2_w2_k4, 48, cfb8::Encryptor, enc, U2, 2, U2, 2, U2, 4, U1, 1);
 batch_case!(cfb8_dec_b2_w2_k4, 48, cfb8::Decryptor, dec, U2, 2, U2, 2, U2, 4, U1, 1);
+batch_case!(cfb8_dec_b2_w4_k9, 48, cfb8::Decryptor, dec, U2, 2, U2, 2, U4, 9, U1, 1); // cipher width > block size
+batch_case!(cfb8_enc_b2_w4_k9, 48, cfb8::Encryptor, enc, U2, 2, U2, 2, U4, 9, U1, 1);
 batch_case!(ofb_enc_b2_w2_k5, 48, ofb::OfbCore, enc, U2, 2, U2, 2, U2, 5, U2, 2);
 batch_case!(ofb_dec_b2_w3_k5, 48, ofb::OfbCore, dec, U2, 2, U2, 2, U3, 5, U2, 2);
 ks_batch_case!(ctr32be_b4_w2_k5, 48, mk_ctr32be, u32, U4, 4, U2, 5);
